@@ -40,6 +40,9 @@ type C19Case struct {
 	// Twice: the issuer factory value is used for a second provider with the opposite insecure setting before the first
 	// issuer function is used (one factory value configuring two providers is ordinary use of the API).
 	Twice bool `json:"factory_used_twice,omitempty"`
+	// Earlier: a moment ago the same issuer function served a request with the same Host - "other": forwarded by a proxy that
+	// named another host, "none": not forwarded at all. Each request is answered from its own headers.
+	Earlier string `json:"earlier_request_same_host,omitempty"`
 	// TLS: the request arrived over TLS; CtxIssuer: the request's context already carries an issuer (it descends from a request
 	// another provider's router handled, or the application set one): neither is the request's Host nor a configured header
 	TLS       bool   `json:"tls,omitempty"`
@@ -228,6 +231,7 @@ func genC19Derived(t *rapid.T) C19Case {
 	c.ReqPath = rapid.SampledFrom([]string{"/metadata", "/evil/path/metadata", "/metadata?x=https://evil.example", "/"}).Draw(t, "reqpath")
 	c.Wellform = rapid.IntRange(0, 3).Draw(t, "malformed") != 0
 	c.Twice = rapid.IntRange(0, 3).Draw(t, "twice") == 0
+	c.Earlier = rapid.SampledFrom([]string{"", "", "other", "none"}).Draw(t, "earlier")
 	c.TLS = rapid.Bool().Draw(t, "tls")
 	if rapid.IntRange(0, 2).Draw(t, "ctxissuer") == 0 {
 		c.CtxIssuer = rapid.SampledFrom([]string{"https://other-provider.example/saml", "http://ctx.example", "ftp://x"}).Draw(t, "ctxissuerv")
@@ -390,6 +394,15 @@ func c19Run(c C19Case) (vs []*ev.Violation, class string) {
 				add("panic", "issuer function panicked: %v", p)
 			}
 		}()
+		if c.Earlier != "" {
+			prev := &http.Request{Method: "GET", Host: c.Host, Header: http.Header{}, URL: &url.URL{Path: "/metadata"}, RequestURI: "/metadata"}
+			if c.Earlier == "other" {
+				for _, h := range c.Headers {
+					prev.Header.Add(h, "for=198.51.100.7;host=earlier-proxy.example;proto=https")
+				}
+			}
+			fn(prev)
+		}
 		got = fn(req)
 		if fnOther != nil {
 			other := fnOther(req)
